@@ -30,8 +30,16 @@ def scenario(ck, trial, tier):
         observed = []
         pairs_valid = set()
         with simnet.Net(seed=rng.getrandbits(30), t0=main[-1].view.time + 100) as net:
+            if trial % 4 == 2:
+                net.default_send_limit = 100        # congested links: a relayed block needs several sends per peer
             sn = nodeharness.SingleNode(net, cs0, [m.block for m in main[1:]], npeers=3)
             sn.new_messages()
+            if not all(sn.connected(i) for i in range(len(sn.peers))):
+                ck.violation('peer-dropped-during-greeting', 'the node closed the connection of a well-behaved peer while greetings '
+                             'were exchanged%s: nothing can be relayed to it' % (' over a congested link (sends accepted %d bytes at a '
+                             'time)' % net.default_send_limit if net.default_send_limit else ''),
+                             {'trial': trial, 'send_limit': net.default_send_limit})
+                return ('node_run', [], [10000, [], [], [[], 0, [], []], []]), []
             # two pending transactions so that "the pool is left as it was" means something
             head = main[-1]
             avail = sorted(tg.spendable(head))
